@@ -134,7 +134,16 @@ def audit(prop):
     return len(names), ok, failures
 
 
-def prove(prop):
+def leanchecker(prop):
+    """thorough tier: Lean's independent re-checker replays the compiled declarations of the property file and of
+    its helper-lemma files (fresh kernel, no elaborator)"""
+    mods = ["Properties." + prop] + sorted("Proofs." + f[:-5] for f in os.listdir(os.path.join(LEAN, "Proofs")) if f.startswith(prop + "_") and f.endswith(".lean"))
+    with Lock():
+        rc, out, err = run(["lake", "env", "leanchecker"] + mods, cwd=LEAN, timeout=3000)
+    return rc == 0, mods, (out + err)[-600:]
+
+
+def prove(prop, tier="quick"):
     """extract + build + audit.  Returns dict(ok, obligations, discharged, problems)."""
     problems = []
     ok_x, msg = extract()
@@ -155,7 +164,13 @@ def prove(prop):
         problems.append("forbidden tokens: " + "; ".join(hits[:5]))
     n, d, fails = audit(prop)
     problems += fails
-    return dict(ok=not problems, obligations=n, discharged=d, problems=problems, build_log="")
+    extra = {}
+    if tier == "thorough":
+        ok_c, mods, text = leanchecker(prop)
+        extra["leanchecker_modules"] = mods
+        if not ok_c:
+            problems.append("leanchecker rejected the compiled modules: " + text)
+    return dict(ok=not problems, obligations=n, discharged=d, problems=problems, build_log="", **extra)
 
 
 # ---------------------------------------------------------------------------
